@@ -186,10 +186,27 @@ fn wired(d: &[u8], off: usize, k: usize, s: &str) -> bool {
     }
 }
 
+/// no character of the range is '@' (0) or ' ' (32): then nothing is trimmed, so that a counter-example of a wiring harness shows
+/// natively (through the real decoder) as well - the message parsers do not branch on text content, so nothing else is lost
+#[inline(always)]
+fn unpadded(d: &[u8], off: usize, k: usize) -> bool {
+    let mut i = 0;
+    let mut ok = true;
+    while i < k {
+        let v = bits(d, off + 6 * i, 6);
+        if v == 0 || v == 32 {
+            ok = false;
+        }
+        i += 1;
+    }
+    ok
+}
+
 pub fn c13r_t24a<N: Nd>(nd: &mut N) {
     use ais::messages::static_data_report::{MessagePart, StaticDataReport};
     let d: [u8; 20] = nd.bytes();
     nd.assume(bits(&d, 38, 2) == 0);
+    nd.assume(unpadded(&d, 40, 20));
     let m = must!(StaticDataReport::parse(&d), "a 160-bit type 24 part A payload must decode");
     match &m.message_part {
         MessagePart::PartA { vessel_name } => {
@@ -203,6 +220,7 @@ pub fn c13r_t24b<N: Nd>(nd: &mut N) {
     use ais::messages::static_data_report::{MessagePart, StaticDataReport};
     let d: [u8; 21] = nd.bytes();
     nd.assume(bits(&d, 38, 2) == 1);
+    nd.assume(unpadded(&d, 48, 3) && unpadded(&d, 66, 4) && unpadded(&d, 90, 7));
     let m = must!(StaticDataReport::parse(&d), "a 168-bit type 24 part B payload must decode");
     match &m.message_part {
         MessagePart::PartB { vendor_id, model_serial, callsign, dimension_to_bow, .. } => {
@@ -218,6 +236,7 @@ pub fn c13r_t24b<N: Nd>(nd: &mut N) {
 pub fn c13r_t19<N: Nd>(nd: &mut N) {
     use ais::messages::extended_class_b_position_report::ExtendedClassBPositionReport;
     let d: [u8; 39] = nd.bytes();
+    nd.assume(unpadded(&d, 143, 20));
     let m = must!(ExtendedClassBPositionReport::parse(&d), "a 312-bit type 19 payload must decode");
     assert!(wired(&d, 143, 20, &m.name), "C13 t19 name = the 20 characters at bit 143");
     assert!(m.dimension_to_bow as u64 == bits(&d, 271, 9), "C13 t19 field after the text");
@@ -226,6 +245,7 @@ pub fn c13r_t19<N: Nd>(nd: &mut N) {
 pub fn c13r_t21<N: Nd>(nd: &mut N) {
     use ais::messages::aid_to_navigation_report::AidToNavigationReport;
     let d: [u8; 34] = nd.bytes();
+    nd.assume(unpadded(&d, 43, 20));
     let m = must!(AidToNavigationReport::parse(&d), "a 272-bit type 21 payload must decode");
     assert!(wired(&d, 43, 20, &m.name), "C13 t21 name = the 20 characters at bit 43");
     assert!(m.dimension_to_bow as u64 == bits(&d, 219, 9), "C13 t21 field after the text");
@@ -234,6 +254,7 @@ pub fn c13r_t21<N: Nd>(nd: &mut N) {
 pub fn c13r_t05<N: Nd>(nd: &mut N) {
     use ais::messages::static_and_voyage_related_data::StaticAndVoyageRelatedData;
     let d: [u8; 53] = nd.bytes();
+    nd.assume(unpadded(&d, 70, 7) && unpadded(&d, 112, 20) && unpadded(&d, 302, 20));
     let m = must!(StaticAndVoyageRelatedData::parse(&d), "a 424-bit type 5 payload must decode");
     assert!(wired(&d, 70, 7, &m.callsign), "C13 t5 call sign = the 7 characters at bit 70");
     assert!(wired(&d, 112, 20, &m.vessel_name), "C13 t5 vessel name = the 20 characters at bit 112");
@@ -244,6 +265,7 @@ pub fn c13r_t05<N: Nd>(nd: &mut N) {
 pub fn c13r_t05_trunc<N: Nd>(nd: &mut N) {
     use ais::messages::static_and_voyage_related_data::StaticAndVoyageRelatedData;
     let d: [u8; 45] = nd.bytes();
+    nd.assume(unpadded(&d, 302, 9));
     let m = must!(StaticAndVoyageRelatedData::parse(&d), "a truncated type 5 payload must decode");
     assert!(wired(&d, 302, 9, &m.destination), "C13 t5 truncated destination = the 9 characters at bit 302");
     crate::cover!(d[40] == 0xbc, "t5 truncated harness end reachable");
